@@ -159,6 +159,10 @@ func TestC04(t *testing.T) {
 		"steps:\n  - command: x\n    nested:\n      \"$X\": b\n      \"$$X\": a\n",
 		"steps:\n  - wait: ~\n    \"$$Y\": {\"$$X\": 1, \"$X\": 2}\n    \"$Y\": [\"$$X\"]\n",
 		"\"$$X\": 1\n\"$X\": 2\nsteps:\n  - command: \"$$X $X\"\n    env: {\"$$X\": \"$$Y\", \"$X\": \"$Y\"}\n",
+		// subtrees shared through YAML aliases: every occurrence is expanded once, not once per reference
+		"shared: &s {k: \"$$X\", \"$$K\": [\"$$X\", \"$X\", {\"\\\\$X\": \"$$X\"}]}\nsteps:\n  - command: x\n    a: *s\n    b: *s\n    plugins:\n      - docker#v1: *s\n      - other#v1: *s\n  - wait: ~\n    w: *s\n",
+		"steps:\n  - &st\n    command: \"$$X\"\n    label: \"$$X $X\"\n    env: {A: \"$$X\"}\n  - *st\n  - group: g\n    steps: [*st, *st]\n",
+		"env: &e {A: \"$$X\", B: \"$$A\"}\nsteps:\n  - command: c\n    env: *e\n  - trigger: t\n    build: {env: *e}\n",
 	}
 	for _, size := range []int{-1, 0, 1, 9, 40} {
 		for n := 0; n < runs; n++ {
@@ -462,6 +466,36 @@ func TestC12(t *testing.T) {
 		}
 	}
 	rec("", 0)
+	// a single anonymous dimension: {{matrix}} is the token, every {{matrix.X}} is unknown; the value looks like a token
+	anonRepl := map[string]string{"": "{{matrix}}"}
+	var recAnon func(prefix string, n int)
+	recAnon = func(prefix string, n int) {
+		cases++
+		want, unknown := refReplace(prefix, anonRepl)
+		c := &pipeline.CommandStep{Command: prefix, Label: prefix, Matrix: &pipeline.Matrix{Setup: pipeline.MatrixSetup{"": {"{{matrix}}", "v"}}},
+			Env: map[string]string{"N{{matrix}}": prefix}, RemainingFields: map[string]any{"u": prefix}}
+		err := c.InterpolateMatrixPermutation(pipeline.MatrixPermutation{"": "{{matrix}}"})
+		switch {
+		case len(unknown) > 0 && err == nil:
+			failures++
+			t.Errorf("anonymous dimension, %q: unknown dimension %v did not fail", prefix, unknown)
+		case len(unknown) == 0 && err != nil:
+			failures++
+			t.Errorf("anonymous dimension, %q: %v", prefix, err)
+		case len(unknown) == 0 && (c.Command != want || c.Label != want || c.Env["N{{matrix}}"] != want || c.RemainingFields["u"] != want):
+			failures++
+			if failures < 6 {
+				t.Errorf("anonymous dimension, %q: command %q label %q env %v, want %q", prefix, c.Command, c.Label, c.Env, want)
+			}
+		}
+		if n == maxLen-1 {
+			return
+		}
+		for _, a := range alphabet {
+			recAnon(prefix+a, n+1)
+		}
+	}
+	recAnon("", 0)
 	// empty permutation changes nothing; non-empty permutation without matrix is rejected
 	c := mk("{{matrix.os}}")
 	c.Matrix = nil
